@@ -4,10 +4,9 @@ Per run: (1) the Coq theorems of coq/Props/C09.v, (2) the real code driven by ha
 through dag.LoadYAML and Parsed.Next; schedule values; daemon histories against the real scheduler + watcher
 with a recording client), (3) correspondence = the Coq models Cron / Daemon evaluated on the same cases,
 (4) MONITOR = the property itself, evaluated by tools/props/cron_lib.py (independent python cron matcher) on the
-calls the real daemon issued.  The remaining genuine defect of the tree (F9b: two start schedules matching one
-minute) is classified narrowly and matched against known_findings.d/C09.json; F9a (zero Next invoked at every tick)
-and F13a / F13b (loader panics killing the daemon) are repaired in /repo - the monitor reports any recurrence as a
-violation."""
+calls the real daemon issued.  The defects this check found in the pinned tree - F9a (zero Next invoked at every
+tick), F9b (two start schedules matching one minute started the DAG twice), F13a / F13b (loader panics killing the
+daemon) - are repaired in /repo; the monitor still classifies them and reports any recurrence as a violation."""
 import json
 import os
 from concurrent.futures import ThreadPoolExecutor
